@@ -610,7 +610,7 @@ func TestC25(t *testing.T) {
 		}
 	}
 	rng := r.Rand("sequential")
-	n := r.N(60000, 600000)
+	n := r.N(60000, 1200000)
 	kinds := []string{"emap", "eheap", "minheap", "maxheap", "emap", "eheap"}
 	for i := 0; i < n && r.Violations() < 10; i++ {
 		c := c25Gen(rng, kinds[i%len(kinds)])
@@ -628,7 +628,7 @@ func TestC25(t *testing.T) {
 		}
 	}
 	crng := r.Rand("concurrent")
-	m := r.N(4000, 30000)
+	m := r.N(4000, 60000)
 	for i := 0; i < m && r.Violations() < 10; i++ {
 		r.Eval()
 		var hist []c25HistOp
